@@ -516,5 +516,5 @@ func drawDStar(t *rapid.T) dstarCase {
 }
 
 func TestDStarLite(t *testing.T) {
-	vk.Run(t, "dstar", vk.Opts{Quick: 10000, Thorough: 250000}, drawDStar, checkDStar)
+	vk.Run(t, "dstar", vk.Opts{Quick: 16000, Thorough: 250000}, drawDStar, checkDStar)
 }
